@@ -1,23 +1,139 @@
-(* C16 — Backward navigation and offsets are consistent with forward order. *)
-From LR Require Import lib.Base model.Iter model.Mixer model.Offset lib.CursorK.
+(* C16 — Backward navigation and offsets are consistent with forward order.
+   Property theorems only; closed by lemmas of proofs/IterP.v (journal iterator across chunk edges, both directions,
+   direction switches), proofs/MixerP.v and proofs/OffsetP.v (cursor with filter as a list cursor, Offset, page). *)
+From LR Require Import lib.Base model.Iter model.Mixer model.Offset proofs.MixerP proofs.IterP proofs.OffsetP lib.CursorK.
 Open Scope Z_scope.
 
-Definition lastn {A} (k : nat) (l : list A) : list A := skipn (length l - k) l.
+(* ---- one partition, any chunk layout, any WHERE filter (no RANGE): POSITION tail OFFSET -k then a forward read
+   returns exactly the last k events of the forward read (all of it if shorter), for every k and every page limit.
+   `all` is what POSITION head reads with the same filter. The journal is read through the range iterator with the
+   exact chunk-iterator position rules; wf_journal: chunk ids increasing, no empty chunk. *)
+Theorem C16_tail : forall (g : nat) (j : journal) (f : option flt) (k limit fuel : nat),
+  wf_journal j -> (length (flat j) < fuel)%nat ->
+  exists chead ctail c1 ps1 c2 ps2 all,
+    new_cursor [(g, LR j (jit_at 0 0))] f PHead = Some chead /\
+    new_cursor [(g, LR j (jit_at 0 0))] f PTail = Some ctail /\
+    query fuel chead 0 (length (flat j)) = Some (c1, all, ps1) /\
+    query fuel ctail (- Z.of_nat k) limit = Some (c2, firstn limit (lastn k all), ps2).
+Proof.
+  intros g j f k limit fuel W Hf.
+  destruct (tail_single g j f W fuel k limit Hf) as (c2 & ps2 & E2).
+  assert (Inv0 : lr_inv j (jit_at 0 0)) by (split; [exact W|cbn; unfold MaxU64, MaxU32; lia]).
+  pose proof (single_cinv g j f false (jit_at 0 0) None 1 Inv0 eq_refl) as I0.
+  rewrite (lr_pos_head j W), rest_at_fwd_neg in I0 by lia.
+  destruct (query_positive leaf_rest (leaf_ok false) false f sett_l (leaf_get_spec false) (leaf_next_spec false) (sett_l_get false)
+              _ _ fuel 0 (length (flat j)) I0) as (c1 & ps1 & E1); [unfold itm; rewrite map_length; exact Hf|].
+  cbn [iter_step Z.of_nat] in E1.
+  exists (mkCur (MLeaf g (LR j (jit_at 0 0))) f None false 1), (mkCur (MLeaf g (LR j (mkJit MaxU64 MaxU32 None false))) f None false 1).
+  exists c1, ps1, c2, ps2, (filter (acc f) (itm g (flat j))).
+  split; [reflexivity|]. split; [reflexivity|]. split; [|exact E2].
+  rewrite E1. do 2 f_equal. f_equal. apply firstn_all2.
+  etransitivity; [apply filter_length_le|]. unfold itm. rewrite map_length. lia.
+Qed.
+Print Assumptions C16_tail.
 
-(* a read: cursor over the sources at position p, Offset offs, then everything *)
+(* ---- positive offsets, merged reads included: for 1..49 sources (journals through the range iterator or in-memory
+   sources, any order, ties, unsorted) with any WHERE filter, POSITION head OFFSET k returns the accepted events of
+   the k-fold step of the merged stream L; when the first event of L passes the filter (or there is no filter)
+   this is exactly "skip the first k matching events". In general the first step of Offset consumes the head of L
+   whether it matches or not (crsr.Offset starts with Next without a settling Get). *)
+Theorem C16_head : forall (srcs : list (nat * leaf)) (f : option flt) (k limit fuel : nat),
+  srcs <> [] -> (length srcs < merge_limit)%nat -> Forall (fun s => fresh_leaf (snd s)) srcs ->
+  exists c, new_cursor srcs f PHead = Some c /\
+    let L := content leaf_rest false (cu_tree c) in
+    ((length L < fuel)%nat ->
+     exists c1 ps1 c2 ps2,
+       query fuel c 0 (length L) = Some (c1, filter (acc f) L, ps1) /\
+       query fuel c (Z.of_nat (S k)) limit = Some (c2, firstn limit (skipn k (filter (acc f) (tl L))), ps2) /\
+       (settled_list f L -> skipn k (filter (acc f) (tl L)) = skipn (S k) (filter (acc f) L))).
+Proof.
+  intros srcs f k limit fuel N Hl F.
+  destruct (new_cursor_cinv srcs f PHead N Hl F I) as (c & E & _ & Inv & _). exists c. split; [exact E|]. cbv zeta. intros Hf.
+  destruct (query_positive leaf_rest (leaf_ok false) false f sett_l (leaf_get_spec false) (leaf_next_spec false) (sett_l_get false)
+              c _ fuel 0 (length (content leaf_rest false (cu_tree c))) Inv Hf) as (c1 & ps1 & E1).
+  destruct (query_positive leaf_rest (leaf_ok false) false f sett_l (leaf_get_spec false) (leaf_next_spec false) (sett_l_get false)
+              c _ fuel (S k) limit Inv Hf) as (c2 & ps2 & E2).
+  exists c1, ps1, c2, ps2. split; [|split].
+  - cbn [iter_step Z.of_nat] in E1. rewrite E1. do 2 f_equal. f_equal. apply firstn_all2. apply filter_length_le.
+  - rewrite E2, iter_step_general. reflexivity.
+  - intros S. rewrite <- iter_step_general, iter_step_settled by exact S. reflexivity.
+Qed.
+Print Assumptions C16_head.
+
+(* ---- one partition, any chunk layout, any WHERE filter: from any position reached by Offset(+i) where a Get returned e0,
+   moving by +k and, when that stayed inside the data (a Get there returned some e1), by -k leads back to the same
+   next event: the next Get returns e0. These are the cursor operations the request handler performs (crsr.Offset, Get). *)
+Theorem C16_inverse : forall (g : nat) (j : journal) (f : option flt) (fuel i k : nat) ca cb cc cd e0 e1,
+  wf_journal j -> (length (flat j) < fuel)%nat -> (1 <= k)%nat ->
+  exists c0, new_cursor [(g, LR j (jit_at 0 0))] f PHead = Some c0 /\
+    (cu_offset fuel (Z.of_nat i) c0 = Some ca -> cu_get fuel ca = Some (cb, Some e0) ->
+     cu_offset fuel (Z.of_nat k) cb = Some cc -> cu_get fuel cc = Some (cd, Some e1) ->
+     exists ce cf, cu_offset fuel (- Z.of_nat k) cd = Some ce /\ cu_get fuel ce = Some (cf, Some e0)).
+Proof.
+  intros g j f fuel i k ca cb cc cd e0 e1 W Hf Hk. eexists. split; [reflexivity|].
+  exact (inverse_script g j f W fuel i k ca cb cc cd e0 e1 Hf Hk).
+Qed.
+Print Assumptions C16_inverse.
+
+(* ---- the full statements, and where the faithful model violates them *)
 Definition read (srcs : list srcspec) (f : option flt) (p : posspec) (offs : Z) : option (list item) :=
-  match model_query srcs f p offs 100000 with QOk xs _ => Some xs | _ => None end.
+  match model_query srcs f p offs 5000 with QOk xs _ => Some xs | _ => None end.
+Definition srcs_ok (srcs : list srcspec) : Prop :=
+  srcs <> [] /\ Forall (fun s => match s with SJrn _ _ chunks => wf_journal (mk_journal chunks) | SMem _ _ => True end) srcs.
 
 Definition C16_tail_statement : Prop := forall srcs f (k : nat),
-  srcs <> [] -> read srcs f PTail (- Z.of_nat k) = option_map (lastn k) (read srcs f PHead 0).
+  srcs_ok srcs -> read srcs f PTail (- Z.of_nat k) = option_map (lastn k) (read srcs f PHead 0).
+Definition C16_head_statement : Prop := forall srcs f (k : nat),
+  srcs_ok srcs -> read srcs f PHead (Z.of_nat k) = option_map (skipn k) (read srcs f PHead 0).
 
-(* two partitions a = [1,2 | 3], b = [10 | 11,12], WHERE accepting everything: tail -4 returns nothing *)
+Definition wit_a : list (Z * list ev * (Z * Z)) := [(100, [(1, 1%nat); (2, 2%nat)], (0, MaxU32)); (110, [(3, 3%nat)], (0, MaxU32))].
+Definition wit_b : list (Z * list ev * (Z * Z)) := [(200, [(10, 10%nat)], (0, MaxU32)); (210, [(11, 11%nat); (12, 12%nat)], (0, MaxU32))].
+Lemma wit_ok r : srcs_ok [SJrn 0 r wit_a; SJrn 1 r wit_b].
+Proof. split; [discriminate|]. repeat constructor; cbn; unfold chunk_ok, c_cnt, MaxU64, MaxU32; cbn; lia. Qed.
+
+(* merged read with a WHERE filter (accepting everything): partitions a = [1,2 | 3], b = [10 | 11,12];
+   tail -4 returns nothing instead of [3,10,11,12] (fiterator's buffer survives SetBackward, iterateToPos steps over the target) *)
 Theorem C16_tail_merged_filter_refuted : exists srcs f k,
-  srcs <> [] /\ read srcs f PTail (- Z.of_nat k) <> option_map (lastn k) (read srcs f PHead 0).
+  srcs_ok srcs /\ read srcs f PTail (- Z.of_nat k) <> option_map (lastn k) (read srcs f PHead 0).
 Proof.
-  exists [SJrn 0 false [(100, [(1, 1%nat); (2, 2%nat)], (0, MaxU32)); (110, [(3, 3%nat)], (0, MaxU32))];
-          SJrn 1 false [(200, [(10, 10%nat)], (0, MaxU32)); (210, [(11, 11%nat); (12, 12%nat)], (0, MaxU32))]],
-         (Some (mkFlt None MinTimestamp MaxTimestamp)), 4%nat.
-  split; [discriminate|]. vm_compute. discriminate.
+  exists [SJrn 0 false wit_a; SJrn 1 false wit_b], (Some (mkFlt None MinTimestamp MaxTimestamp)), 4%nat.
+  split; [apply wit_ok|]. vm_compute. discriminate.
 Qed.
 Print Assumptions C16_tail_merged_filter_refuted.
+
+(* merged read with RANGE (partition iterator; windows cover everything): tail -4 returns [10,11,12]: the partition
+   iterator never reports the backward end, b yields its first record again *)
+Theorem C16_tail_merged_range_refuted : exists srcs f k,
+  srcs_ok srcs /\ read srcs f PTail (- Z.of_nat k) <> option_map (lastn k) (read srcs f PHead 0).
+Proof.
+  exists [SJrn 0 true wit_a; SJrn 1 true wit_b], (Some (mkFlt None 0 100)), 4%nat.
+  split; [apply wit_ok|]. vm_compute. discriminate.
+Qed.
+Print Assumptions C16_tail_merged_range_refuted.
+
+(* merged read of a partition that is not stored in time order: a = [5,1], b = [3]: forward [3,5,1], tail -1 gives [3] *)
+Theorem C16_tail_merged_unsorted_refuted : exists srcs f k,
+  srcs_ok srcs /\ read srcs f PTail (- Z.of_nat k) <> option_map (lastn k) (read srcs f PHead 0).
+Proof.
+  exists [SJrn 0 false [(100, [(5, 1%nat); (1, 2%nat)], (0, MaxU32))]; SJrn 1 false [(200, [(3, 101%nat)], (0, MaxU32))]], None, 1%nat.
+  split; [|vm_compute; discriminate].
+  split; [discriminate|]. repeat constructor; cbn; unfold chunk_ok, c_cnt, MaxU64, MaxU32; cbn; lia.
+Qed.
+Print Assumptions C16_tail_merged_unsorted_refuted.
+
+(* one partition [1,2,3] with a WHERE filter rejecting the first event: head +1 returns [2,3] instead of [3] *)
+Theorem C16_head_filter_refuted : exists srcs f k,
+  srcs_ok srcs /\ read srcs f PHead (Z.of_nat k) <> option_map (skipn k) (read srcs f PHead 0).
+Proof.
+  exists [SJrn 0 false [(100, [(1, 1%nat); (2, 2%nat); (3, 3%nat)], (0, MaxU32))]], (Some (mkFlt (Some [2%nat; 3%nat]) MinTimestamp MaxTimestamp)), 1%nat.
+  split; [|vm_compute; discriminate].
+  split; [discriminate|]. repeat constructor; cbn; unfold chunk_ok, c_cnt, MaxU64, MaxU32; cbn; lia.
+Qed.
+Print Assumptions C16_head_filter_refuted.
+
+(* non-vacuity: a three-chunk journal with a filter; tail -2 in the model gives the last two accepted events *)
+Example C16_nonvacuous :
+  let chunks := [(100, [(1, 1%nat); (2, 2%nat)], (0, MaxU32)); (110, [(3, 3%nat)], (0, MaxU32)); (125, [(4, 4%nat); (5, 5%nat); (6, 6%nat)], (0, MaxU32))] in
+  wf_journal (mk_journal chunks) /\
+  read [SJrn 0 false chunks] (Some (mkFlt (Some [2; 3; 5]%nat) MinTimestamp MaxTimestamp)) PTail (-2) = Some [((3, 3%nat), 0%nat); ((5, 5%nat), 0%nat)].
+Proof. cbv zeta. split; [repeat constructor; cbn; unfold chunk_ok, c_cnt, MaxU64, MaxU32; cbn; lia|vm_compute; reflexivity]. Qed.
